@@ -118,9 +118,11 @@ Definition in_range (o : option Z) : option Z :=
 Definition parse_int (s : string) : option Z :=
   in_range
   match s with
-  | String "-" r => match N_of_dec r with Some n => Some (- Z.of_N n)%Z | None => None end
-  | String "+" r => match N_of_dec r with Some n => Some (Z.of_N n) | None => None end
-  | _ => match N_of_dec s with Some n => Some (Z.of_N n) | None => None end
+  | EmptyString => None
+  | String c r =>
+    if Ascii.eqb c "-" then match N_of_dec r with Some n => Some (- Z.of_N n)%Z | None => None end
+    else if Ascii.eqb c "+" then match N_of_dec r with Some n => Some (Z.of_N n) | None => None end
+    else match N_of_dec s with Some n => Some (Z.of_N n) | None => None end
   end.
 
 (** strings.TrimSpace, ASCII white space only (the harness generates no other). *)
